@@ -2,6 +2,7 @@
 import Mathlib.NumberTheory.LucasPrimality
 import Mathlib.Tactic.NormNum.Prime
 import Mathlib.Data.ZMod.Basic
+import Mathlib.GroupTheory.OrderOfElement
 
 namespace WinterProofs.Primes
 
@@ -86,6 +87,39 @@ theorem prime_of_lucas (p a : Nat) (L : List Nat) (hp : p - 1 < 2 ^ 200)
     intro hc
     have := (ZMod.natCast_eq_natCast_iff' (powMod a ((p - 1) / q) p) 1 p).1 (by simpa using hc)
     exact h2 q hr this
+
+/-- multiplicative order `p - 1` from the same certificate -/
+theorem order_of_lucas (p a : Nat) (L : List Nat) (hp1 : 1 < p) (hp : p - 1 < 2 ^ 200)
+    (hL : ∀ q ∈ L, q.Prime) (hprod : L.prod = p - 1)
+    (h1 : powMod a (p - 1) p % p = 1 % p)
+    (h2 : ∀ q ∈ L, powMod a ((p - 1) / q) p % p ≠ 1 % p) : orderOf (a : ZMod p) = p - 1 := by
+  apply orderOf_eq_of_pow_and_pow_div_prime (by omega)
+  · rw [zmod_pow_eq a (p - 1) p hp]
+    have := (ZMod.natCast_eq_natCast_iff' (powMod a (p - 1) p) 1 p).2 h1
+    simpa using this
+  · intro q hq hdvd
+    rw [← hprod] at hdvd
+    obtain ⟨r, hr, hqr⟩ := (Prime.dvd_prod_iff (Nat.Prime.prime hq)).1 hdvd
+    have hqr' : q = r := (Nat.prime_dvd_prime_iff_eq hq (hL r hr)).1 hqr
+    subst hqr'
+    have hlt : (p - 1) / q < 2 ^ 200 := lt_of_le_of_lt (Nat.div_le_self _ _) hp
+    rw [zmod_pow_eq a ((p - 1) / q) p hlt]
+    intro hc
+    have := (ZMod.natCast_eq_natCast_iff' (powMod a ((p - 1) / q) p) 1 p).1 (by simpa using hc)
+    exact h2 q hr this
+
+/-- an element of order exactly `2^(k+1)` -/
+theorem order_two_pow (p a k : Nat) (hk : 2 ^ (k + 1) < 2 ^ 200)
+    (h1 : powMod a (2 ^ (k + 1)) p % p = 1 % p)
+    (h2 : powMod a (2 ^ k) p % p ≠ 1 % p) : orderOf (a : ZMod p) = 2 ^ (k + 1) := by
+  apply orderOf_eq_prime_pow
+  · rw [zmod_pow_eq a (2 ^ k) p (lt_trans (Nat.pow_lt_pow_right (by norm_num) (Nat.lt_succ_self k)) hk)]
+    intro hc
+    have := (ZMod.natCast_eq_natCast_iff' (powMod a (2 ^ k) p) 1 p).1 (by simpa using hc)
+    exact h2 this
+  · rw [zmod_pow_eq a (2 ^ (k + 1)) p hk]
+    have := (ZMod.natCast_eq_natCast_iff' (powMod a (2 ^ (k + 1)) p) 1 p).2 h1
+    simpa using this
 
 /-- the 64-bit modulus 2^64 - 2^32 + 1 is prime (witness 7; p - 1 = 2^32·3·5·17·257·65537) -/
 theorem prime_M64 : Nat.Prime 18446744069414584321 := by
